@@ -89,3 +89,128 @@ class TrailingData(Harness):
         if rest not in ("", "\r\n"):
             return {"observed": {"left": rest[:40]}, "clause": "nothing is left unparsed"}
         return None
+
+
+class QuotedStrings(Harness):
+    """C08: quoted-string escapes are decoded, literals are taken by count (both through the real parser)."""
+
+    scope = "LOGIN u <string> with every text over {a, \", \\, space, {, CR LF} up to length 6 (quick) / 7 (thorough), sent once as an escaped quoted string (texts without CR/LF) and once as a literal"
+    exhaustive = True
+
+    def inputs(self, tier, seed):
+        yield {"max_len": 6 if tier == "quick" else 7}
+
+    def check(self, inp):
+        import itertools
+
+        from asimap.parse import IMAPClientCommand
+
+        alpha = ["a", '"', "\\", " ", "{", "\r\n"]
+        for n in range(inp["max_len"] + 1):
+            for tup in itertools.product(alpha, repeat=n):
+                text = "".join(tup)
+                forms = [f"a LOGIN u {{{len(text)}}}\r\n{text}", f"a LOGIN u {{{len(text)}+}}\r\n{text}"]
+                if "\r\n" not in text:
+                    forms.append('a LOGIN u "' + text.replace("\\", "\\\\").replace('"', '\\"') + '"')
+                for line in forms:
+                    c = IMAPClientCommand(line + "\r\n")
+                    try:
+                        c.parse()
+                    except Exception as e:  # noqa: BLE001
+                        return {"observed": {"line": line, "error": repr(e)}, "clause": "a well-formed string argument is accepted"}
+                    if c.password != text:
+                        return {"observed": {"line": line, "password": c.password, "expected": text}, "clause": "quoted-string escapes are decoded / literals are taken by count"}
+        return None
+
+
+class FetchAtts(Harness):
+    """C08: fetch attributes (sections, partials, .PEEK, RFC822 forms) are decoded faithfully -- every sentence of a small
+    generated grammar is parsed by the real parser and compared, component by component, with an independent reading."""
+
+    scope = ("FETCH 1 <att> and FETCH 1 (<att> <att>) for att in {BODY, BODY.PEEK} x 11 sections x {no partial, <0.10>, <5.1>, <100.50>} x 3 letter cases, "
+             "plus RFC822, RFC822.HEADER/.TEXT/.SIZE, BODY, BODYSTRUCTURE, UID, FLAGS, INTERNALDATE, ENVELOPE")
+    exhaustive = True
+
+    SECTIONS = ["", "HEADER", "TEXT", "1", "1.2", "1.MIME", "2.HEADER", "1.2.TEXT", "HEADER.FIELDS (From To)", "HEADER.FIELDS.NOT (Subject)", "3.HEADER.FIELDS (Date)"]
+    PARTIALS = [None, (0, 10), (5, 1), (100, 50)]
+
+    @staticmethod
+    def expected_section(sec):
+        out = []
+        if not sec:
+            return out
+        head, _, flds = sec.partition(" ")
+        parts = head.split(".")
+        i = 0
+        while i < len(parts) and parts[i].isdigit():
+            out.append(int(parts[i]))
+            i += 1
+        name = ".".join(parts[i:]).lower()
+        if name.startswith("header.fields"):
+            out.append((name, [f.lower() for f in flds.strip("()").split()]))
+        elif name:
+            out.append(name)
+        return out
+
+    def inputs(self, tier, seed):
+        for peek in (False, True):
+            for sec in self.SECTIONS:
+                for part in self.PARTIALS:
+                    for case in ("upper", "lower", "title"):
+                        yield {"peek": peek, "section": sec, "partial": part, "case": case}
+        for simple in ("RFC822", "RFC822.HEADER", "RFC822.TEXT", "RFC822.SIZE", "BODY", "BODYSTRUCTURE", "UID", "FLAGS", "INTERNALDATE", "ENVELOPE"):
+            yield {"simple": simple}
+
+    def check(self, inp):
+        from asimap.parse import IMAPClientCommand
+
+        def norm(section):
+            out = []
+            for e in section or []:
+                if isinstance(e, tuple):
+                    out.append((str(e[0]).lower(), [str(f).lower() for f in e[1]]))
+                elif isinstance(e, int):
+                    out.append(e)
+                else:
+                    out.append(str(e).lower())
+            return out
+
+        if "simple" in inp:
+            s = inp["simple"]
+            c = IMAPClientCommand(f"a FETCH 1 {s}\r\n")
+            c.parse()
+            a = c.fetch_atts[0]
+            want = {"RFC822": ("body", [], False), "RFC822.HEADER": ("body", ["header"], True), "RFC822.TEXT": ("body", ["text"], False),
+                    "RFC822.SIZE": ("rfc822.size", None, False), "BODY": ("bodystructure", None, False), "BODYSTRUCTURE": ("bodystructure", None, False),
+                    "UID": ("uid", None, False), "FLAGS": ("flags", None, False), "INTERNALDATE": ("internaldate", None, False), "ENVELOPE": ("envelope", None, False)}[s]
+            got = (str(a.attribute), None if a.section is None else norm(a.section), bool(a.peek))
+            if got != want or a.partial is not None:
+                return {"observed": {"line": s, "got": repr(got), "partial": a.partial}, "clause": "fetch attributes are decoded faithfully"}
+            return None
+        word = "BODY.PEEK" if inp["peek"] else "BODY"
+        sec = inp["section"]
+        word, sec = {"upper": (word, sec), "lower": (word.lower(), sec.lower()), "title": (word.title(), sec.title())}[inp["case"]]
+        att = f"{word}[{sec}]" + (f"<{inp['partial'][0]}.{inp['partial'][1]}>" if inp["partial"] else "")
+        for line in (f"a FETCH 1 {att}\r\n", f"a UID FETCH 1:* (FLAGS {att})\r\n"):
+            c = IMAPClientCommand(line)
+            try:
+                c.parse()
+            except Exception as e:  # noqa: BLE001
+                return {"observed": {"line": line, "error": repr(e)}, "clause": "a valid fetch attribute is accepted"}
+            a = c.fetch_atts[-1]
+            want_partial = tuple(inp["partial"]) if inp["partial"] else None
+            problems = []
+            if str(a.attribute) != "body":
+                problems.append(f"attribute {a.attribute}")
+            if bool(a.peek) != inp["peek"]:
+                problems.append(f"peek {a.peek}")
+            if (tuple(a.partial) if a.partial else None) != want_partial:
+                problems.append(f"partial {a.partial}")
+            if norm(a.section) != self.expected_section(inp["section"]):
+                problems.append(f"section {a.section}")
+            # a command made only of FLAGS/UID/.PEEK attributes does not set \Seen
+            if bool(c.fetch_peek) != inp["peek"]:
+                problems.append(f"fetch_peek {c.fetch_peek}")
+            if problems:
+                return {"observed": {"line": line, "wrong": problems}, "clause": "sections, partials and .PEEK are decoded faithfully"}
+        return None
